@@ -210,6 +210,38 @@ func earlyReturnAfter(in ssa.Instruction) *ssa.Return {
 	return nil
 }
 
+// leavesLoopEarly: from the point after `in` (inside a loop body) some
+// instruction outside the loop is reachable without passing the loop header
+// again: a break (or return) abandons the remaining iterations.  Returns the
+// first such instruction, nil if none.
+func leavesLoopEarly(in ssa.Instruction) ssa.Instruction {
+	h := loopHeaderOf(in)
+	if h == nil {
+		return nil
+	}
+	// blocks of the loop: those from which the header is reachable and that the header dominates
+	inLoop := map[*ssa.BasicBlock]bool{h: true}
+	for _, b := range in.Parent().Blocks {
+		if !h.Dominates(b) || len(b.Instrs) == 0 {
+			continue
+		}
+		r := core.ReachFrom(core.Point{B: b, I: 0}, nil, nil)
+		if len(h.Instrs) > 0 && r.Has(h.Instrs[0]) {
+			inLoop[b] = true
+		}
+	}
+	r := core.ReachFrom(core.After(in), func(x ssa.Instruction) bool { return x.Block() == h }, nil)
+	for _, b := range in.Parent().Blocks {
+		if inLoop[b] || len(b.Instrs) == 0 {
+			continue
+		}
+		if r.Has(b.Instrs[0]) {
+			return b.Instrs[0]
+		}
+	}
+	return nil
+}
+
 // guardedUp: every path to target crosses an edge establishing m, where the
 // guard may also have been established by the callers of an unexported helper
 // (the helper is only entered through call sites that are themselves guarded).
@@ -488,7 +520,14 @@ func ruleSerialDrain(c *core.Ctx, rule string, fn *ssa.Function) {
 			if _, isGo := call.(*ssa.Go); isGo {
 				bad = "the goroutine draining the queue starts another goroutine (at " + c.Pos(call.Pos()) + "): two messages of one object are then handled concurrently (validate/save/notify of two writes interleave, subscribers see different orders), and a goroutine started in a range loop shares the loop variable (go.mod says go 1.13): one message is handled twice and another never"
 			}
-			if cc.IsInvoke() && cc.Method.Name() == "Receive" {
+			isHandling := cc.IsInvoke() && cc.Method.Name() == "Receive"
+			if !cc.IsInvoke() && cc.StaticCallee() == nil {
+				// a consumer handed to fn as a function value (AddHandler's Consumer)
+				if pr, ok := core.Canon(cc.Value).(*ssa.Parameter); ok && pr.Parent() == fn {
+					isHandling = true
+				}
+			}
+			if isHandling {
 				nRecv++
 				if _, plain := call.(*ssa.Call); !plain {
 					bad = "the Receiver is not invoked by a plain call"
